@@ -122,6 +122,7 @@ def main():
         # intensified search seeded with the disagreeing inputs
         print("[%s] proof stage / correspondence broken -> intensified failing-input search" % prop)
         ctx2 = Ctx(prop, "thorough", seed + 7919)
+        ctx2.scale = 1          # the intensified search of a quick run uses the unscaled thorough counts
         focus = {"disagreements": corr.get("disagreements", []), "problems": lean.problems,
                  "changed_tables": lean.changed_tables}
         try:
